@@ -463,6 +463,15 @@ func c17Faults(r *rng.R, base *c17Spec) []*c17Fault {
 			if used {
 				ds = append(ds, &c17Decl{Kind: "token", Name: "USES_CYC", Lines: []string{"USES_CYC = '~cy~' CYC0"}})
 			}
+			if r.Chance(1, 2) {
+				// a macro that is not on the cycle but leads into it
+				out := &c17Decl{Kind: "macro", Name: "INTO_CYC", Lines: []string{fmt.Sprintf("@macro INTO_CYC = '~i~'? CYC%d", r.Intn(n))}}
+				if r.Chance(1, 2) {
+					ds = append([]*c17Decl{out}, ds...)
+				} else {
+					ds = append(ds, out)
+				}
+			}
 			for i := len(ds) - 1; i >= 0; i-- {
 				s.insertAfter(a, ds[i])
 			}
@@ -580,6 +589,9 @@ func c17Benign(r *rng.R, base *c17Spec) []*c17Fault {
 	}
 	mk("benign-single-char-range", false, "FRESH_TOK = '~b~' [a-a]")
 	mk("benign-name-with-digits-and-underscores", false, "F9_A_B2 = '~b2~'")
+	mk("benign-name-digit-after-underscore", false, "ISO_8859_1 = '~b6~'")
+	mk("benign-macro-name-digit-after-underscore", false, "@macro UTF_8 = [q]")
+	mk("benign-external-name-digit-after-underscore", false, "@external X_1 Y_22_Z")
 	mk("benign-token-with-mode-action", false, "FRESH_TOK = '~b3~' @push_mode(Str)")
 	mk("benign-frag-emit-then-pop", true, "@frag '~b4~' @emit(STR_END) @pop_mode")
 	mk("benign-unused-macro", false, "@macro UNUSED_M = [q]+ 'x'?")
